@@ -679,9 +679,14 @@ def rule_E2(repo: Repo) -> RuleResult:
             if not invalid:
                 continue
             found = False
+            local_defs: Dict[str, ast.AST] = {}
             for st in p.stmts:
+                if isinstance(st, ast.Assign) and len(st.targets) == 1 and isinstance(st.targets[0], ast.Name):
+                    local_defs[st.targets[0].id] = st.value       # the value a local holds at this point of the path
                 if isinstance(st, ast.Assign) and isinstance(st.targets[0], ast.Subscript) and base_name(st.targets[0]) == out:
                     v = st.value
+                    if isinstance(v, ast.Name) and v.id in local_defs:
+                        v = local_defs[v.id]
                     if isinstance(v, ast.Subscript) and base_name(v) in roles.per_group_arrays \
                             and isinstance(v.slice, ast.Name) and v.slice.id == k:
                         carried.add(base_name(v))
@@ -702,9 +707,17 @@ def rule_E2(repo: Repo) -> RuleResult:
         for p in paths:
             if p.exit != "fall":
                 continue
+            # A[k] = out[i], or A[k] = t where the same local t is what was stored into out[i] on this path
+            n_defs: Dict[str, int] = {}
+            for st in p.stmts:
+                if isinstance(st, ast.Assign) and len(st.targets) == 1 and isinstance(st.targets[0], ast.Name):
+                    n_defs[st.targets[0].id] = n_defs.get(st.targets[0].id, 0) + 1
+            stored_to_out = {st.value.id for st in p.stmts if isinstance(st, ast.Assign) and isinstance(st.targets[0], ast.Subscript)
+                             and base_name(st.targets[0]) == out and isinstance(st.value, ast.Name) and n_defs.get(st.value.id) == 1}
             ok = any(isinstance(st, ast.Assign) and isinstance(st.targets[0], ast.Subscript)
-                     and base_name(st.targets[0]) == A and isinstance(st.value, ast.Subscript)
-                     and base_name(st.value) == out for st in p.stmts)
+                     and base_name(st.targets[0]) == A
+                     and ((isinstance(st.value, ast.Subscript) and base_name(st.value) == out)
+                          or (isinstance(st.value, ast.Name) and st.value.id in stored_to_out)) for st in p.stmts)
             construct = f"{kname}: {A}[{k}] = {out}[i] on path {p.describe()[:70]}"
             if ok:
                 res.ok(f, loop, construct, "carried value refreshed", nontrivial=False)
